@@ -5,6 +5,10 @@
 impl PartialEq for Byte32 {
     #[verifier::external_body] fn eq(&self, o: &Byte32) -> (r: bool) ensures r == (*self == *o) { unimplemented!() }
 }
+impl vstd::std_specs::cmp::PartialEqSpecImpl for Byte32 {
+    open spec fn obeys_eq_spec() -> bool { true }
+    open spec fn eq_spec(&self, o: &Byte32) -> bool { *self == *o }
+}
 pub uninterp spec fn b_is_genesis(b: &BlockView) -> bool;
 pub uninterp spec fn b_data(b: &BlockView) -> PackedBlock;
 pub uninterp spec fn b_header(b: &BlockView) -> HeaderView;
